@@ -111,6 +111,9 @@ pub fn configs(quick: bool) -> Vec<Config> {
         v.push(Config { name: "T2_c1_d4_full", threads: 2, creds: 1, draws: 4, budget: 8, decoys: false, same_claims: false, moved_instance: false });
         v.push(Config { name: "T3_c2_d1_first_point", threads: 3, creds: 2, draws: 1, budget: 1, decoys: false, same_claims: true, moved_instance: false });
         v.push(Config { name: "T2_c3_d1_full", threads: 2, creds: 3, draws: 1, budget: 2, decoys: false, same_claims: true, moved_instance: false });
+        v.push(Config { name: "T2_c2_d2_full", threads: 2, creds: 2, draws: 2, budget: 4, decoys: false, same_claims: true, moved_instance: true });
+        v.push(Config { name: "T3_c1_d2_full", threads: 3, creds: 1, draws: 2, budget: 4, decoys: false, same_claims: true, moved_instance: false });
+        v.push(Config { name: "T4_c1_d1_full", threads: 4, creds: 1, draws: 1, budget: 2, decoys: false, same_claims: false, moved_instance: false });
     }
     v
 }
@@ -155,7 +158,7 @@ fn run_config(rep: &Report, c: &Config, global: &mut Pool) {
         l.states += t.choices.len() as u64;
         l.transitions += t.choices.len() as u64;
         let mut run_pool = Pool::new();
-        let origin = format!("{} schedule {:?}", cc.name, t.choices);
+        let origin = format!("{} schedule #{}", cc.name, l.evals);
         let mk = |class: &str, site: &str, detail: String| {
             Violation::new("issue", class, site, cc.name, detail, json!({"kind": "c14_schedule", "config": cc.name, "schedule": t.choices}))
         };
@@ -357,7 +360,7 @@ pub fn run(rep: &Report) {
     let mut global = Pool::new();
     // one worker process per configuration (the scheduler and the hook are process-global)
     let ncfg = configs(rep.quick()).len();
-    let (deaths, results) = worker::supervise_full(rep, &["C14".to_string(), "cfg".to_string(), rep.tier.clone()], ncfg, Duration::from_secs(600));
+    let (deaths, results) = worker::supervise_full(rep, &["C14".to_string(), "cfg".to_string(), rep.tier.clone()], ncfg, Duration::from_secs(7200));
     for d in deaths {
         rep.machinery_error(format!("C14 scheduler worker {} died ({}): {}", d.shard, d.status, d.stderr_tail));
     }
